@@ -147,6 +147,35 @@ def generate(seed, tier):
         nvol += 1
     if nvol == 0:
         world['cells'].append({'at': free_slot(world), 'f': ['f', 'NOW']})
+    # dependents of a volatile cell in chain / fan-out / diamond shapes (every
+    # one of them must see the same single value within one evaluation)
+    if sw.chance(.6):
+        vs = [i for i, c in enumerate(world['cells'])
+              if 'f' in c and 'arr' not in c and sites(c['f'])]
+        if vs:
+            v = world['cells'][vr.pick(vs)]
+            rv = ['r'] + v['at'] + v['at'][2:]
+            made = []
+
+            def add(f):
+                at = free_slot(world)
+                world['cells'].append({'at': at, 'f': f})
+                made.append(['r'] + at + at[2:])
+                return made[-1]
+            shape = vr.randrange(4)
+            b = add(['op', '+', rv, ['n', 1]])
+            if shape == 0:      # diamond, joint consumer first
+                add(['op', '+', rv, b])
+                add(['op', '*', b, ['n', 2]])
+            elif shape == 1:    # diamond, plain dependent first
+                add(['op', '*', b, ['n', 2]])
+                add(['op', '+', rv, b])
+            elif shape == 2:    # chain
+                c2 = add(['op', '*', b, ['n', 3]])
+                add(['op', '-', c2, b])
+            else:               # fan-out joined by SUM
+                c2 = add(['op', '+', rv, ['n', 2]])
+                add(['f', 'SUM', b, c2])
     srng = Rng(seed, 'sched')
     kind = srng.weighted([('dict', 3), ('file', 2)])
     pl = identity_placement(world) if srng.chance(.5) else gen_placement(
@@ -172,7 +201,14 @@ def generate(seed, tier):
         if k == 'compile':
             ins = er.sample(const_cells, er.randrange(1, min(
                 3, len(const_cells)) + 1))
-            exes.append({'kind': 'compile', 'src': 0, 'inputs': sorted(ins)})
+            # compiled from the loaded model or from a copy / re-import of it
+            srcs = [j for j, e in enumerate(exes)
+                    if e['kind'] in ('model', 'todict') or (
+                        e['kind'] in ('deepcopy', 'dill') and
+                        exes[e['src']]['kind'] in ('model', 'todict',
+                                                   'deepcopy', 'dill'))]
+            exes.append({'kind': 'compile', 'src': er.pick(srcs),
+                         'inputs': sorted(ins)})
         elif k == 'formula':
             exes.append({'kind': 'formula', 'cell': er.pick(vol_cells or [
                 len(world['cells']) - 1])})
@@ -188,18 +224,18 @@ def generate(seed, tier):
     remaining = {j: er.randrange(2, t['max_evals'] + 1)
                  for j in range(len(exes))}
     made = {0}
+    def ensure(j):
+        if j in made:
+            return
+        if exes[j].get('src') is not None:
+            ensure(exes[j]['src'])
+        steps.append({'do': 'make', 'exe': j})
+        made.add(j)
+
     while remaining:
         j = er.pick(sorted(remaining))
-        src = exes[j].get('src')
         if j not in made:
-            if src is not None and src not in made:
-                j = src
-                if j not in made:
-                    steps.append({'do': 'make', 'exe': j})
-                    made.add(j)
-                continue
-            steps.append({'do': 'make', 'exe': j})
-            made.add(j)
+            ensure(j)       # copies are taken at scheduler-chosen points
             continue
         steps.append({'do': 'eval', 'exe': j})
         remaining[j] -= 1
